@@ -90,6 +90,8 @@ class AuthHandler:
         self.private_key = None
         self.interactive_handler = None
         self.submethods = None
+        # client mode: our SERVICE_REQUEST has not been answered yet
+        self._service_request_pending = False
         # for server mode:
         self.auth_username = None
         self.auth_fail_count = 0
@@ -188,6 +190,7 @@ class AuthHandler:
         m = Message()
         m.add_byte(cMSG_SERVICE_REQUEST)
         m.add_string("ssh-userauth")
+        self._service_request_pending = True
         self.transport._send_message(m)
 
     def _disconnect_service_not_available(self):
@@ -386,6 +389,13 @@ class AuthHandler:
     def _parse_service_accept(self, m):
         service = m.get_text()
         if service == "ssh-userauth":
+            if not self._service_request_pending:
+                # Nothing to follow up with: the auth attempt this would have
+                # answered is over (or never started), its parameters gone.
+                raise SSHException(
+                    "Received SERVICE_ACCEPT without a pending service request"
+                )
+            self._service_request_pending = False
             self._log(DEBUG, "userauth is OK")
             m = Message()
             m.add_byte(cMSG_USERAUTH_REQUEST)
